@@ -173,8 +173,8 @@ C_Timeout == /\ cpc = "get" /\ q = <<>> /\ cpc' = "alive"
 C_Alive == /\ cpc = "alive"
            /\ cpc' = IF AliveCheck /\ tpc = "dead" /\ (~FixDrain \/ q = <<>>) THEN "join" ELSE "get"
            /\ NoEmit /\ TUnch /\ GUnch /\ UNCHANGED <<q, cur, status, executed, stop, fails, limit>>
-(* KeyboardInterrupt arrives while the consumer waits in get() *)
-C_CtrlC == /\ AllowCtrlC /\ cpc = "get" /\ ~stopped
+(* KeyboardInterrupt arrives while the consumer waits in get(), or while it polls the thread's liveness after a timeout *)
+C_CtrlC == /\ AllowCtrlC /\ cpc \in {"get", "alive"} /\ ~stopped
            /\ stop' = TRUE /\ stopped' = TRUE /\ status' = "interrupted" /\ Emit(Ev("INT", 0, 0, "")) /\ cpc' = "join"
            /\ TUnch /\ UNCHANGED <<q, cur, executed, fails, limit, problem, reqAfterStop, scsAfterStop>>
 C_Join == /\ cpc = "join" /\ tpc = "dead" /\ cpc' = IF FixCtrlC THEN "drain" ELSE "pf"
